@@ -19,6 +19,7 @@ FIXED = [
     {"origin": "fixed:mismatched-lists-not-running", "steps": ["Mix:m3", "Start", "Stop", "StopWait", "Mix:m3"], "bad": ["m3"]},
     {"origin": "fixed:silent-card", "steps": ["Start", "Silence", "Wait", "Mix:m1", "Stop", "StopWait", "Flow", "Start", "Mix:m2", "Couple", "Stop", "StopWait"], "bad": []},
     {"origin": "fixed:failed-start-then-runs", "steps": ["StartBad", "Mix:m1", "Start", "Mix:m2", "Stop", "StopWait", "StartBad", "Start", "Stop", "StopWait"], "bad": []},
+    {"origin": "fixed:queued-requests-then-stop", "steps": ["Start", "Couple", "Wait", "Couple", "Mix:m1", "Couple", "Wait", "Stop", "StopWait", "Start", "Couple", "Stop", "StopWait"], "bad": []},
     {"origin": "fixed:three-runs", "steps": ["Start", "Stop", "StopWait", "Start", "Wait", "Stop", "StopWait", "Start", "Mix:m1", "Stop", "StopWait"], "bad": []},
 ]
 
